@@ -179,7 +179,7 @@ fn cli_reference(dict: &Dict, content: &str, f: &Flags) -> Result<String, String
 }
 
 fn cli_files(max_lines: usize) -> Vec<String> {
-    let bodies = ["", "東京都", "1,000円", "あ。い", " "];
+    let bodies = ["", "東京都", "1,000円", "あ。い", " ", "京都・・・東京", "あ<br><br>い"];
     let terms = ["\n", "\r\n"];
     let mut all: Vec<String> = Vec::new();
     let mut cur: Vec<String> = vec![String::new()];
@@ -261,7 +261,7 @@ pub fn setup() -> i32 {
 
 pub fn main(tier: Tier, replay: Option<String>) -> i32 {
     let mut rep = Report::new("C19", "model_checking", tier);
-    rep.rule = "CLI: every file of at most max_lines lines over the bodies {empty, 東京都, 1,000円, あ。い, blank} x terminators {LF, CRLF, none on the last line} x 7 flag sets (default, -a, -w, -m A, -m B -a, --split-sentences=no, -w with no splitting in mode A) is fed to the real `sudachi` binary; stdout must equal the bytes the library + documented format give for each line without its terminator. Python: every call sequence up to `depth` over tokenize(t) / tokenize(t, mode) / tokenize(t, out=L) / m.split(mode[, out=L2]) / lookup(q[, out=L]) / holding a morpheme across list reuse, for five tokenizer configurations (modes, field subset, projections normalized / reading), on the real extension in a sub-process; every result must equal the library's (JSON oracle), text[begin:end] must be the raw surface, a per-call mode must not stick, and the interpreter must exit normally. non-trivial = the file has more than one line / the sequence has more than one call".into();
+    rep.rule = "CLI: every file of at most max_lines lines over the bodies {empty, 東京都, 1,000円, あ。い, blank, 京都・・・東京, あ<br><br>い} x terminators {LF, CRLF, none on the last line} x 7 flag sets (default, -a, -w, -m A, -m B -a, --split-sentences=no, -w with no splitting in mode A) is fed to the real `sudachi` binary; stdout must equal the bytes the library + documented format give for each line without its terminator. Python: every call sequence up to `depth` over tokenize(t) / tokenize(t, mode) / tokenize(t, out=L) / m.split(mode[, out=L2]) / lookup(q[, out=L]) / holding a morpheme across list reuse, for five tokenizer configurations (modes, field subset, projections normalized / reading), on the real extension in a sub-process; every result must equal the library's (JSON oracle), text[begin:end] must be the raw surface, a per-call mode must not stick, and the interpreter must exit normally. non-trivial = the file has more than one line / the sequence has more than one call".into();
     rep.assumptions = vec![
         "the subjects run out of process; enumeration is exhaustive within the bound, the verdict is differential against the in-process library on the same dictionary bytes and configuration".into(),
         "Dictionary.pre_tokenizer needs the `tokenizers` package, which is not installed in this sandbox: that path is not exercised".into(),
@@ -294,48 +294,83 @@ pub fn main(tier: Tier, replay: Option<String>) -> i32 {
     let mut nontrivial = 0u64;
     let mut distinct = std::collections::HashSet::new();
     let mut samples = Vec::new();
-    let input_path = work_dir().join("cli_input.txt");
-    'cli: for (fi, content) in files.iter().enumerate() {
-        std::fs::write(&input_path, content).expect("write input");
+    // all (file, flag set) cases, run on several worker threads (one process per case)
+    let mut all_cases: Vec<(usize, String, Flags)> = Vec::new();
+    for (fi, content) in files.iter().enumerate() {
         for (fj, f) in flags.iter().enumerate() {
-            // every flag set on files of at most one line; the four main ones on longer files (quick tier)
-            if tier == Tier::Quick && content.matches('\n').count() > 1 && !(fj < 3 || fj == 5) {
-                continue;
-            }
-            cases += 1;
-            if content.matches('\n').count() > 1 {
-                nontrivial += 1;
-            }
-            let expected = match cli_reference(&dict, content, f) {
-                Ok(s) => s,
-                Err(e) => {
-                    eprintln!("machinery failure: reference failed: {}", e);
-                    return 2;
-                }
-            };
-            let out = Command::new(&cli).arg("-r").arg(&cfg_path).arg("-p").arg(&res_dir).args(&f.args).arg(&input_path).output();
-            let state = json!({"file": content, "flags": f.name});
-            match out {
-                Err(e) => {
-                    eprintln!("machinery failure: cannot run {}: {}", cli.display(), e);
-                    return 2;
-                }
-                Ok(o) => {
-                    let got = String::from_utf8_lossy(&o.stdout).to_string();
-                    distinct.insert(hash_str(&got));
-                    if !o.status.success() {
-                        let err = String::from_utf8_lossy(&o.stderr);
-                        cli_fail.push((state, Failure::new("cli-crashed", format!("sudachi {} on file {:?} exited with {:?}: {}", f.name, content, o.status.code(), err.lines().last().unwrap_or("")))));
-                    } else if got != expected {
-                        cli_fail.push((state, Failure::new("cli-output-differs", format!("sudachi {} on file {:?} printed {:?}, the library gives {:?}", f.name, content, got, expected))));
+            let _ = fj;
+            all_cases.push((fi, content.clone(), f.clone()));
+        }
+    }
+    cases = all_cases.len() as u64;
+    nontrivial = all_cases.iter().filter(|(_, c, _)| c.matches('\n').count() > 1).count() as u64;
+    let workers = 8usize;
+    let results: std::sync::Mutex<Vec<(usize, Value, Option<Failure>, u64, Option<Value>)>> = std::sync::Mutex::new(Vec::new());
+    let machinery: std::sync::Mutex<Option<String>> = std::sync::Mutex::new(None);
+    std::thread::scope(|sc| {
+        for k in 0..workers {
+            let all_cases = &all_cases;
+            let results = &results;
+            let machinery = &machinery;
+            let (cli, cfg_path, res_dir, dict) = (&cli, &cfg_path, &res_dir, &dict);
+            sc.spawn(move || {
+                let input_path = work_dir().join(format!("cli_input_{}.txt", k));
+                for (idx, (fi, content, f)) in all_cases.iter().enumerate() {
+                    if idx % workers != k {
+                        continue;
                     }
-                    if samples.len() < 3 && fi % 37 == 5 {
-                        samples.push(json!({"file": content, "flags": f.name, "stdout": got}));
+                    if machinery.lock().unwrap().is_some() {
+                        return;
+                    }
+                    std::fs::write(&input_path, content).expect("write input");
+                    let expected = match cli_reference(dict, content, f) {
+                        Ok(s) => s,
+                        Err(e) => {
+                            *machinery.lock().unwrap() = Some(format!("reference failed: {}", e));
+                            return;
+                        }
+                    };
+                    let out = Command::new(cli).arg("-r").arg(cfg_path).arg("-p").arg(res_dir).args(&f.args).arg(&input_path).output();
+                    let state = json!({"file": content, "flags": f.name});
+                    match out {
+                        Err(e) => {
+                            *machinery.lock().unwrap() = Some(format!("cannot run {}: {}", cli.display(), e));
+                            return;
+                        }
+                        Ok(o) => {
+                            let got = String::from_utf8_lossy(&o.stdout).to_string();
+                            let fail = if !o.status.success() {
+                                let err = String::from_utf8_lossy(&o.stderr);
+                                Some(Failure::new("cli-crashed", format!("sudachi {} on file {:?} exited with {:?}: {}", f.name, content, o.status.code(), err.lines().last().unwrap_or(""))))
+                            } else if got != expected {
+                                Some(Failure::new("cli-output-differs", format!("sudachi {} on file {:?} printed {:?}, the library gives {:?}", f.name, content, got, expected)))
+                            } else {
+                                None
+                            };
+                            let sample = if fi % 37 == 5 { Some(json!({"file": content, "flags": f.name, "stdout": got})) } else { None };
+                            results.lock().unwrap().push((idx, state, fail, hash_str(&got), sample));
+                        }
                     }
                 }
+            });
+        }
+    });
+    if let Some(m) = machinery.lock().unwrap().take() {
+        eprintln!("machinery failure: {}", m);
+        return 2;
+    }
+    let mut res = results.into_inner().unwrap();
+    res.sort_by_key(|r| r.0);
+    for (_, state, fail, h, sample) in res {
+        distinct.insert(h);
+        if let Some(sv) = sample {
+            if samples.len() < 3 {
+                samples.push(sv);
             }
-            if !cli_fail.is_empty() {
-                break 'cli;
+        }
+        if let Some(f) = fail {
+            if cli_fail.is_empty() {
+                cli_fail.push((state, f));
             }
         }
     }
@@ -413,7 +448,7 @@ pub fn main(tier: Tier, replay: Option<String>) -> i32 {
     }
     py_samples.push(json!({"texts": texts, "queries": queries, "depth": depth}));
     let first: Vec<(Value, Failure)> = py_fail.into_iter().take(1).collect();
-    rep.add_direct("python/call-sequences", seqs.max(1), seqs.saturating_sub(5 * 27), calls.min(seqs).max(2), py_samples, first, json!({"depth": depth, "operations": 27, "tokenizer_configurations": 5, "api_calls_checked": calls}));
+    rep.add_direct("python/call-sequences", seqs.max(1), seqs.saturating_sub(5 * 29), calls.min(seqs).max(2), py_samples, first, json!({"depth": depth, "operations": 29, "tokenizer_configurations": 5, "api_calls_checked": calls}));
     rep.finish()
 }
 
